@@ -670,6 +670,7 @@ var observeFragments = []string{
 	"for(var k in H){try{if(k.slice(0,2)==='nf')rec(k+':'+H[k](4)+':'+H[k].name)}catch(e){rec('E'+e)}}",
 	"try{rec(typeof gg1+':'+(typeof gf1==='function'?gf1():'-'))}catch(e){rec('E'+e)}",
 	"try{var gs=[];for(var gi=0;gi<12;gi++){if(typeof this['gcount'+gi]==='number')gs.push(gi+'='+this['gcount'+gi])}rec(gs.join())}catch(e){rec('E'+e)}",
+	"for(var k in H){try{var go=H[k];if(go&&typeof go==='object'&&k.slice(0,2)==='og'&&!Object.isFrozen(go)){var gn=0;Object.defineProperty(go,'c',{get:function(){gn++;go['zy'+gn]=gn;delete go.a;delete go.d;return 3},enumerable:true,configurable:true});rec(k+':'+(Object.values?String(Object.values(go)):'nv')+'|'+(Object.entries?String(Object.entries(go)):'ne')+'|'+JSON.stringify(go)+'|'+Object.keys(Object.assign?Object.assign({},go):{})+'|'+Object.keys(go)+'|'+Object.getOwnPropertyNames(go))}}catch(e){rec('E'+e)}}",
 	"for(var k in H){try{var fo=H[k];if(fo&&typeof fo==='object'&&k.slice(0,2)==='og'){var fl=[];for(var fk in fo){fl.push(fk);if(fl.length===1){fo.zz=1;delete fo.b}}rec(k+':'+fl.join()+':'+Object.keys(fo).join())}}catch(e){rec('E'+e)}}",
 	"for(var k in H){try{if(k.slice(0,2)==='mx')rec(k+':'+H[k](50)+':'+H[k](7))}catch(e){rec('E'+e)}}",
 	"for(var k in H){try{if(k.slice(0,2)==='wa')rec(k+':'+H[k]()+','+H['wb'+k.slice(2)]())}catch(e){rec('E'+e)}}",
